@@ -384,7 +384,7 @@ def gen_extra(tier, rnd):
     allreg = [dict(src=s, twins=t, again=a, via=v, enabled=e)
               for s in sorted(REG_SOURCES) for t in (0, 1, 2, 3) for a in (False, True)
               for v in ('add_function', 'add_callable', 'call') for e in (False, True)]
-    reg = allreg if tier != 'quick' else rnd.sample(allreg, 288)
+    reg = allreg
     defer = [dict(kind=k, prof=p) for k in PKINDS for p in ('lp', 'cp')]
     # one `def` executed several times (loop / factory) with different - or equal but distinct - default objects,
     # attributes and names; every member decorated by the SAME profiler
@@ -392,8 +392,15 @@ def gen_extra(tier, rnd):
               for k in ('func', 'gen', 'coro', 'agen', 'tgen') for n in (2, 3, 5) for h in ('loop', 'factory')
               for sd in (False, True) for w in ('each', 'after') for rn in (False, True) for rv in (False, True)
               for p in ('lp', 'cp')]
-    family = allfam if tier != 'quick' else rnd.sample(allfam, 240)
-    return dict(nest=gen_nest(tier, rnd), desc=desc, meta=meta, reg=reg, family=family, defer=defer)
+    # fixed corpora (no sampling: every input class is present in every run)
+    family = allfam if tier != 'quick' else [c for c in allfam if c['n'] == 3]
+    # callable INSTANCES: value-equal but distinct ones (2, 2, 2.0 / 3, 3), with or without value __eq__/__hash__,
+    # truthy or falsy (class defines __len__ -> 0), decorated by ONE profiler directly and inside every wrapper kind
+    from harness.drivers.c03_objects import INST_WRAPS
+    inst = [dict(factors=f, eqhash=e, falsy=fa, wrap=w, prof=p, order=o)
+            for f in ([2, 2, 2.0], [3, 3]) for e in (False, True) for fa in (False, True) for w in INST_WRAPS
+            for p in ('lp', 'cp') for o in ('each', 'after')]
+    return dict(nest=gen_nest(tier, rnd), desc=desc, meta=meta, reg=reg, family=family, inst=inst, defer=defer)
 
 
 def strip_phase(x):
@@ -512,6 +519,13 @@ def py_spec_family(o):
     keyword-only defaults, attributes, name, own bound objects); the wrappers are distinct and wrap their own function"""
     return 'driver_error' not in o and strip_phase(o['got']) == strip_phase(o['ref']) and all(o['wrapped_own']) \
         and len(o['wrapped_own']) > 0 and not o['leaked']
+
+
+def py_spec_inst(o):
+    """callable instances (also equal-but-distinct ones, also falsy ones) decorated by one profiler - directly and inside
+    partial / staticmethod / classmethod / bound method / partialmethod / property / cached_property - give the results
+    (value AND type), exceptions and per-object side effects of the undecorated originals"""
+    return 'driver_error' not in o and o['got'] == o['ref'] and not o['leaked']
 
 
 def py_spec_reg(o):
@@ -734,7 +748,7 @@ def eval_extra(extra, out, res, cov, use_coq=True):
             res.spec_fails.append(dict(case=dict(stream='nest', **c), impl=o,
                                        why='decorated code under another active profiler: expected %r' % (nest_expected(c),), finding=fid))
     for name, spec, coqfail in (('desc', py_spec_desc, set()), ('meta', py_spec_meta, coq_meta_fail), ('reg', py_spec_reg, set()),
-                                ('family', py_spec_family, set())):
+                                ('family', py_spec_family, set()), ('inst', py_spec_inst, set())):
         for n, (c, o) in enumerate(zip(extra[name], out[name])):
             if 'driver_error' in o:
                 res.infra_errors.append('%s driver error: %s' % (name, o['driver_error']))
@@ -748,6 +762,8 @@ def eval_extra(extra, out, res, cov, use_coq=True):
                                            why={'desc': 'descriptor/partial wrapped by the profiler behaves differently from the original on some access path',
                                                 'meta': 'name / doc / signature / kind / attributes not preserved',
                                                 'reg': 'behaviour of a function changed by registering it (add_function / add_callable / decoration)',
+                                                'inst': 'a callable instance (equal-but-distinct / falsy) decorated directly or inside a wrapper object '
+                                                        'does not give the results, types or per-object side effects of the original',
                                                 'family': 'function objects made by one `def` (shared code object, different defaults / attributes / names) '
                                                           'do not all behave like their undecorated twins once decorated by the same profiler'}[name],
                                            finding=fid))
@@ -783,7 +799,7 @@ def run(tier, seed):
                         best = cand
         ex2 = gen_extra('quick', r2)
         o2 = core.run_impl(impl, 'harness.drivers.c03', dict(extra=ex2), timeout=1200)['extra']
-        for name, spec in (('nest', None), ('desc', py_spec_desc), ('meta', py_spec_meta), ('reg', py_spec_reg), ('family', py_spec_family)):
+        for name, spec in (('nest', None), ('desc', py_spec_desc), ('meta', py_spec_meta), ('reg', py_spec_reg), ('family', py_spec_family), ('inst', py_spec_inst)):
             for c, o in zip(ex2[name], o2[name]):
                 if 'driver_error' in o:
                     continue
@@ -859,12 +875,12 @@ def run(tier, seed):
                 hyp_coro += 1
             else:
                 hyp_coro_out += 1
-    n_eval = 3 * len(recs) + 3 * len(arecs) + len(kcases) + sum(len(extra[k]) for k in ('nest', 'desc', 'meta', 'reg', 'family'))
+    n_eval = 3 * len(recs) + 3 * len(arecs) + len(kcases) + sum(len(extra[k]) for k in ('nest', 'desc', 'meta', 'reg', 'family', 'inst'))
     two_prof = sum(1 for c in extra['nest'] if len({p for _, p in c['layers']}) >= 2)
     exh = (3, 2) if tier == 'quick' else (4, 3)
     cov.update(
         evaluations=n_eval,
-        distinct_nontrivial=len(nontrivial) + two_prof + len(extra['desc']) + len(extra['reg']) + len(extra['family'])
+        distinct_nontrivial=len(nontrivial) + two_prof + len(extra['desc']) + len(extra['reg']) + len(extra['family']) + len(extra['inst'])
         + len({json.dumps(c) for c in kcases if any(st[0] == 'tick' for st in c['steps']) and len(c['steps']) > 1}),
         rule='protocol cases (kind x body table x op sequence x {unwrapped, LineProfiler, ContextualProfile}) count as non-trivial '
              'when the op sequence is non-empty and the body is resumed at least once, distinct by all four components; nest cases '
@@ -873,10 +889,10 @@ def run(tier, seed):
         exhaustive=True,
         exhaustive_scope='op sequences of length <= %d over {next, send 2, throw ValueError, throw GeneratorExit, close} for %d random tables '
                    '(<= 3 states) per kind; all nestings of depth <= %d over {decorate, with} x 4 profiler instances; '
-                   '%s registration configurations' % (exh[0], 4 if tier == 'quick' else 24, exh[1],
-                                                       'all 576' if tier != 'quick' else '288 sampled of 576'),
+                   'all registration configurations (sources x twins x again x via x enabled); all 256 callable-instance configurations; %s function-family configurations'
+                   % (exh[0], 4 if tier == 'quick' else 24, exh[1], 'all 960' if tier != 'quick' else '320 (n = 3) of 960'),
         streams=dict(protocol_triples=len(recs), protocol_runs=3 * len(recs), await_runs=3 * len(arecs), kern=len(kcases),
-                     nest=len(extra['nest']), desc=len(extra['desc']), meta=len(extra['meta']), reg=len(extra['reg']), family=len(extra['family'])),
+                     nest=len(extra['nest']), desc=len(extra['desc']), meta=len(extra['meta']), reg=len(extra['reg']), family=len(extra['family']), inst=len(extra['inst'])),
         kern_modes=_hist(c['mode'] for c in kcases), kern_step_kinds=_hist(st[0] for c in kcases for st in c['steps']),
         kern_ticks_at_count_zero_then_call=sum(1 for c in kcases if any(a[0] == 'tick' and b[0] in ('call', 'gsend', 'gstart') for a, b in zip(c['steps'], c['steps'][1:]))),
         kinds=_hist(r['kind'] for r in recs),
@@ -951,7 +967,7 @@ def replay(path):
         ok = py_spec_nest(cc, o)
         extra = dict(expected=nest_expected(cc), finding=None if ok else classify_nest(cc, o))
     else:
-        ok = {'desc': py_spec_desc, 'meta': py_spec_meta, 'reg': py_spec_reg, 'family': py_spec_family}[stream](o)
+        ok = {'desc': py_spec_desc, 'meta': py_spec_meta, 'reg': py_spec_reg, 'family': py_spec_family, 'inst': py_spec_inst}[stream](o)
         extra = dict(finding=classify_meta(o)) if (stream == 'meta' and not ok) else {}
     print(json.dumps(dict(case=c, impl=o, holds=ok, **extra), indent=1, default=str))
     return 0 if ok else 1
